@@ -41,7 +41,7 @@ def U(name, typ, ts, tt, dt=5.0):
 
 PROBLEMS = {
     1: dict(streams=[S("A", "H1", 200, 80, 1200), S("A", "C1", 60, 150, 900), S("B", "H2", 180, 40, 700, 10), S("B", "C2", 30, 120, 990, 2.5)],
-            utilities=[U("LPS", "Both", 140, 140), U("CW", "Cold", 10, 20)], options={}),
+            utilities=[U("LPS", "Both", 140, 140, 12.0), U("CW", "Cold", 10, 20, 12.0)], options={"DT_CONT": 12.0}),     # a non-default option
     2: dict(streams=[S("Only", "H1", 250, 50, 400), S("Only", "H2", 120, 30, 90, 0.0)], utilities=[], options={}),
     3: dict(streams=[S("Plant/U1", "F1", 20, 180, 3200), S("Plant/U1", "F2", 150, 150, 250), S("Plant/U2", "P1", 250, 40, 3150, 7.5),
                      S("Yard", "P2", 200, 80, 1800)],
@@ -170,7 +170,7 @@ def materialise(p, ch, d: Path):
         f = d / "Site.json"; f.write_text(json.dumps(prob)); return f
     if ch == "units_json":
         q = with_units(prob)
-        if q["utilities"] and prob["utilities"][-1]["dt_cont"] == 5.0:
+        if q["utilities"] and prob["utilities"][-1]["dt_cont"] == (prob.get("options") or {}).get("DT_CONT", 5.0):
             q["utilities"][-1]["dt_cont"]["value"] = None
         f = d / "Site.json"; f.write_text(json.dumps(q)); return f
     scols = ["zone", "name", "t_supply", "t_target", "heat_flow", "dt_cont", "htc"]
@@ -180,8 +180,10 @@ def materialise(p, ch, d: Path):
     srows = [scols, sunits] + [[s[c] for c in scols] for s in prob["streams"]]
     # an optional cell left blank means "use the default": the last utility's contribution, when it equals the default
     # DT_CONT (5.0), is written as a blank cell / a null value-with-unit in the file channels (seeded change C16d)
+    opt_dt = (prob.get("options") or {}).get("DT_CONT", 5.0)
+    can_blank = (not prob.get("options")) or ch in ("xlsx", "units_json")      # the CSV bundle carries no options: contributions stay explicit there
     def cell(u, c):
-        return None if (c == "dt_cont" and u is prob["utilities"][-1] and u["dt_cont"] == 5.0) else u[c]
+        return None if (c == "dt_cont" and u is prob["utilities"][-1] and u["dt_cont"] == opt_dt and can_blank) else u[c]
     urows = [ucols, uunits] + [[cell(u, c) for c in ucols] for u in prob["utilities"]]
     if ch in ("csvdir", "csvpair"):
         sub = d / "Site"; sub.mkdir(exist_ok=True)
@@ -193,7 +195,9 @@ def materialise(p, ch, d: Path):
         with pd.ExcelWriter(f, engine="openpyxl") as w:
             pd.DataFrame(srows).to_excel(w, sheet_name="Stream Data", header=False, index=False)
             pd.DataFrame(urows).to_excel(w, sheet_name="Utility Data", header=False, index=False)
-            pd.DataFrame([["key", "value"], ["", ""]]).to_excel(w, sheet_name="Options", header=False, index=False)
+            # option names as typed by hand: with stray blanks around them (seeded change C16e)
+            orows = [["### Options ### ", None]] + [[f" {k} ", v] for k, v in (prob.get("options") or {}).items()] if prob.get("options") else [["key", "value"], ["", ""]]
+            pd.DataFrame(orows).to_excel(w, sheet_name="Options", header=False, index=False)
         return f
     raise ValueError(ch)
 
